@@ -54,12 +54,23 @@ def setup_modules():
         with open(os.path.join(MODDIR, "verif_c09_loaded.py"), "w") as f:
             f.write("import props.c09 as _h\n\nclass Boom(Exception):\n    def __init__(self, *a):\n"
                     "        _h.CANARY['init'] += 1\n        Exception.__init__(self, *a)\n")
+        # a module that is loaded, whose attribute lookup imports a sub-module on demand (PEP 562 module __getattr__,
+        # the way concurrent.futures hands out ProcessPoolExecutor)
+        with open(os.path.join(MODDIR, "verif_c09_pkg.py"), "w") as f:
+            f.write("def __getattr__(name):\n    if name == 'Late':\n        import verif_c09_pkg_sub\n"
+                    "        return verif_c09_pkg_sub.Late\n    raise AttributeError(name)\n")
+        with open(os.path.join(MODDIR, "verif_c09_pkg_sub.py"), "w") as f:
+            f.write("import props.c09 as _h\n_h.CANARY['imported'] += 1\n\n"
+                    "class Late(Exception):\n    def __init__(self, *a):\n        _h.CANARY['init'] += 1\n"
+                    "        Exception.__init__(self, *a)\n")
         sys.path.insert(0, MODDIR)
     if not _hooked:
         sys.addaudithook(_hook)
         _hooked.append(1)
     import verif_c09_loaded  # noqa: F401
+    import verif_c09_pkg  # noqa: F401
     sys.modules.pop("verif_c09_lazy", None)
+    sys.modules.pop("verif_c09_pkg_sub", None)
 
 
 def cleanup_modules():
@@ -318,6 +329,7 @@ def check_payload(case, rec):
         fails.append(Failure("import", "hostile payload imported a module with import_custom_exceptions off", case,
                              (imports + new_mods)[:3]))
     sys.modules.pop("verif_c09_lazy", None)
+    sys.modules.pop("verif_c09_pkg_sub", None)
     return fails
 
 
@@ -367,7 +379,8 @@ def payload_cases():
     names = st.sampled_from([["os", "system"], ["builtins", "open"], ["builtins", "eval"], ["builtins", "type"],
                              ["builtins", "object"], ["builtins", "KeyError"], ["builtins", "BaseException"],
                              ["verif_c09_lazy", "Boom"], ["verif_c09_lazy", "NotExc"], ["verif_c09_loaded", "Boom"],
-                             ["verif_c09_nowhere", "X"], ["subprocess", "Popen"], ["builtins", "ExceptionGroup"]])
+                             ["verif_c09_nowhere", "X"], ["subprocess", "Popen"], ["builtins", "ExceptionGroup"],
+                             ["verif_c09_pkg", "Late"], ["verif_c09_pkg", "Late"], ["verif_c09_pkg", "missing"]])
     attrname = st.sampled_from(["__class__", "__dict__", "__traceback__", "args", "_remote_tb", "with_traceback",
                                 "__init__", "__cause__", "value", "errno", "x"])
     rec = st.tuples(names, st.lists(_plain, max_size=3), st.lists(st.tuples(attrname, _plain), max_size=3), _plain).map(
